@@ -74,7 +74,7 @@ static void step(MPT_STRUCT(axis) *ax)
 	v_d = v_in_double("d"); v_f = v_in_float("f"); v_n = V_IN_I16("n"); v_y = V_IN_U8("y"); v_c = (char) V_IN_U8("c");
 	for (i = 0; i < 4; i++) v_s[i] = (char) V_IN_U8("text");
 	v_s[4] = 0;
-	v_sp = V_IN_BOOL("null_text") ? 0 : v_s;
+	v_sp = V_IN_BOOL("null_text") ? (const char *) 0 : (const char *) v_s;
 	V_ASSUME(v_d == v_d && v_f == v_f);   /* NaN compares unequal to itself */
 
 	memcpy(&before, ax, sizeof(*ax));
@@ -97,6 +97,7 @@ static void step(MPT_STRUCT(axis) *ax)
 	V_ASSERT(g >= 0, "listed property can be read");
 	dflt = reset || held_empty;
 	if (p == 4) {
+		if (held == 's' && !v_sp) dflt = 1;   /* a text source without text is an empty value */
 		/* intervals: a count, or the text "log" */
 		if (!dflt && held == 's') {
 			V_ASSERT(is_log(v_sp), "text other than log is not a value of intervals");
